@@ -264,7 +264,7 @@ def run(rec, tier, seed):
     quick = tier == "quick"
     ns = campaign.NCPU
     jobs = []
-    top = 600 if quick else 30_000
+    top = 600 if quick else 15_000
     step = max(1, top // (ns * 4))
     jobs += [("øC-range", lo, min(top + 1, lo + step)) for lo in range(1, top + 1, step)]
     ks = list(range(1, 51))
@@ -279,13 +279,13 @@ def run(rec, tier, seed):
         jobs += [("τβ-small", small[i::4], 40) for i in range(4)]
         jobs += [("τβ-boundary", bases[i::ns], 3) for i in range(ns)]
     else:
-        jobs += [("τβ-small", bases[i::ns * 4], 400) for i in range(ns * 4)]
-        jobs += [("τβ-boundary", bases[i::ns * 2], 20) for i in range(ns * 2)]
-    n = 25 if quick else 1500
+        jobs += [("τβ-small", bases[i::ns * 4], 120) for i in range(ns * 4)]
+        jobs += [("τβ-boundary", bases[i::ns * 2], 10) for i in range(ns * 2)]
+    n = 25 if quick else 600
     jobs += [("hyp", seed * 1000 + i, n) for i in range(ns)]
     campaign.parallel(rec, _shard, jobs)
     rec.exhaustive.append(f"øD on every dictionary word (alone and in a sentence); øC on 1..{top}; øc on all strings of length<={2 if quick else 3} over [a-z ] not starting with a space; "
-                          + ("τ/β on 11 bases x 0..40 and all bases 2..300 x b^k±1, k<=3" if quick else "τ/β on all bases 2..300 x 0..400 and b^k±1, k<=20"))
+                          + ("τ/β on 11 bases x 0..40 and all bases 2..300 x b^k±1, k<=3" if quick else "τ/β on all bases 2..300 x 0..120 and b^k±1, k<=10"))
 
 
 def replay(case):
